@@ -79,6 +79,19 @@ def check_single(a):
         raise Violation('equal to a foreign object', signature='C12:foreign')
     if not (a == a) or (a != a) or (a < a) or not (a <= a):
         raise Violation('reflexivity', signature='C12:reflexive')
+    if type(a).__name__ == 'InterfaceClass':
+        # the order is by the (name, module) key of *any* operand that has one: with a look-alike of equal key, <= and >= both hold, so
+        # == must hold too and != must not (antisymmetry; != is the negation of ==), in both directions
+        d = _Lookalike(a.__name__, a.__module__)
+        got = dict(le=a <= d, ge=a >= d, lt=a < d, gt=a > d, eq=a == d, ne=a != d, req=d == a, rne=d != a)
+        if not (got['le'] is True and got['ge'] is True and got['lt'] is False and got['gt'] is False and got['eq'] is True
+                and got['ne'] is False and got['req'] is True and got['rne'] is False):
+            raise Violation('interface vs a foreign object with the same (__name__, __module__) and no comparison methods: %r; <= and >= '
+                            'hold, so == must hold and != must not (also reflected)' % (got,), signature='C12:lookalike')
+        d2 = _Lookalike(a.__name__ + 'x', a.__module__)
+        if (a == d2) is not False or (a != d2) is not True or not (a < d2) or (a > d2):
+            raise Violation('interface vs a foreign object with a larger name: ==%r !=%r <%r >%r' % (a == d2, a != d2, a < d2, a > d2),
+                            signature='C12:lookalike')
     # a foreign object without name/module that implements its own (in)equality: the interface must defer to it
     # (__eq__/__ne__ return NotImplemented), so that != stays the negation of == and reflected comparisons agree
     h = _Handle()
@@ -86,6 +99,15 @@ def check_single(a):
         if (a == h) is not True or (a != h) is not False or (h == a) is not True or (h != a) is not False:
             raise Violation('interface vs an object with its own __eq__/__ne__: == gives %r, != gives %r (reflected %r / %r); '
                             '!= must be the negation of ==' % (a == h, a != h, h == a, h != a), signature='C12:foreign-eq')
+
+
+class _Lookalike:
+    """A foreign object that carries the same __name__ / __module__ as an interface and no comparison methods of its own (a transparent
+    proxy, a class of the same name in the same module - the case the _compare docstring names)."""
+
+    def __init__(self, name, module):
+        self.__name__ = name
+        self.__module__ = module
 
 
 class _Handle:
